@@ -5,9 +5,21 @@ P("C01",
   design_ref="DESIGN.md §3 C01",
   technique="Coq proof over an executable model of eventHeap/unsafeEventQueue/SerialEngine (Lib/Engine.v) for all handler "
             "programs + exact trace correspondence with timing.SerialEngine by vm_compute",
-  level_text="(stage a) model and exact tie; theorems follow",
-  level_note="Trusted: Coq kernel + vm_compute; the Go harness (script interpreter, trace recording); the hand-written model.",
+  level_text="Theorems c01_* hold for EVERY event type, EVERY handler program H that never schedules in the past, every engine state "
+             "satisfying the invariant e_ok (any initial Schedule calls give one: c01_initial_schedule_ok) and runs of any length: "
+             "c01_exactly_once (handled entries are a permutation of queued-at-start + scheduled, identities distinct), c01_time_monotone, "
+             "c01_handled_is_due_first / c01_primary_before_secondary (a secondary at t is handled only when every pending primary, incl. ones "
+             "spawned at t, is later), c01_fifo_same_class + c01_seq_is_schedule_order + c01_fifo_schedule_order, c01_run_returns_empty, "
+             "c01_no_panic_invariant_kept, c01_schedule_past_panics. The binary heap is modelled with the code's index arithmetic and proved: "
+             "c01_heap_push / c01_heap_pop_min (shape invariant kept, pop returns the (time,seq)-minimum) and c01_heap_refines_sorted (push = sorted "
+             "insertion, pop = head, drain = sorted list). The model is compared step-for-step with timing.SerialEngine on every run "
+             "(handled event, clock, returned Schedule calls, outcome incl. panic, queued events after via SaveCheckpoint).",
+  level_note="Trusted: Coq kernel + vm_compute; the Go harness (script interpreter on the Go side, trace recording through hooks/handlers, checkpoint parsing); "
+             "the hand-written model of eventqueue.go/serialengine.go (tied by exact trace equality). holds_on is an independent reference "
+             "priority-queue walk over the observed trace; no link theorem between holds_on and the model is proved.",
   quick_shards=8,
-  assumptions=["nextSeq and event times are unbounded naturals (a uint64 wrap needs 2^64 pushes / times near 2^64)"],
+  assumptions=["nextSeq and event times are unbounded naturals (a uint64 wrap needs 2^64 pushes / times near 2^64)",
+               "handlers only call Schedule/CurrentTime on the engine (no Pause/SetCurrentTime/nested Run) and every event targets a registered handler",
+               "single-threaded use: no concurrent Schedule while Run executes (C05 covers Pause)"],
   trusted=["modelled, not verified: timing/eventqueue.go (eventHeap, unsafeEventQueue), timing/serialengine.go (Schedule, Run, RunUntil, dispatchNext, nextEvent, nextEventTime)"],
   )
